@@ -80,17 +80,22 @@ def run(ctx):
 
     # ---- search: the property itself on the real parse() ----
     accepted = []
-    for x in inputs:
-        try:
-            with impl.quiet():
-                m = UBXReader.parse(x, validate=1)
-            accepted.append((x, m))
-        except ube.UBXParseError:
-            pass
-        except (ube.UBXMessageError, ube.UBXTypeError):
-            pass  # rejected later by the constructor (C08's business); still "no message returned"
-        except Exception as e:  # foreign exception: C08 reports it; here it is "not UBXParseError"
-            ctx.count("foreign:" + type(e).__name__)
+    # validate=VALCKSUM must mean the same under every msgmode and parsebitfield setting (the default ones on every
+    # input, the other seven combinations on a rotating subset and on every corruption of the first frames)
+    combos = [(mm, bf) for mm in (0, 1, 2, 3) for bf in (True, False)]
+    for n, x in enumerate(inputs):
+        todo = [(0, True)] + ([combos[1 + n % 7]] if (n % 3 == 0 or n < 4000) else [])
+        for mm, bf in todo:
+            try:
+                with impl.quiet():
+                    m = UBXReader.parse(x, validate=1, msgmode=mm, parsebitfield=bf)
+                accepted.append((x, m))
+            except ube.UBXParseError:
+                pass
+            except (ube.UBXMessageError, ube.UBXTypeError):
+                pass  # rejected later by the constructor (C08's business); still "no message returned"
+            except Exception as e:  # foreign exception: C08 reports it; here it is "not UBXParseError"
+                ctx.count("foreign:" + type(e).__name__)
     if accepted:
         wf = common.wf_oracle([x for x, _ in accepted])
         for (x, m), w in zip(accepted, wf):
@@ -109,6 +114,18 @@ def run(ctx):
         for ck in (b"\x00\x00", b"\xff\xff", bytes([f[-2] ^ 1, f[-1]]), bytes([f[-2], f[-1] ^ 0x80])):
             g = f[:-2] + ck
             nval += 1
+            # VALNONE under SETPOLL / parsebitfield settings: still no checksum test (attributes are C17's business)
+            for mm, bf in ((3, True), (3, False), (1, False)):
+                try:
+                    with impl.quiet():
+                        UBXReader.parse(g, validate=0, msgmode=mm, parsebitfield=bf)
+                except ube.UBXParseError as e:
+                    # a mode that has no such message is a UBXMessageError; a UBXParseError here is the validation
+                    if "checksum" in str(e).lower():
+                        ctx.fail("valnone-validates", {"op": "PARSE", "validate": 0, "msgmode": mm, "parsebitfield": bf, "hex": g.hex()},
+                                 "no checksum test", str(e)[:80])
+                except Exception:  # pylint: disable=broad-except
+                    pass
             try:
                 with impl.quiet():
                     m = UBXReader.parse(g, validate=0)
